@@ -241,6 +241,19 @@ def rule_pf(repo, tier):
         ok = isinstance(y, ast.Name) and y.id == 'y' and bool(_find_calls(ye, 'generate_particles')) and _mentions_noise(R, 'R') \
             and not _mentions_noise(R, 'Q')
     chk('weights(y,ye,R)', ok, 'importance weights are not computed from (y, predicted observations of the particles, R)')
+    # documentation, step 3: q = p(y | x^-_k) - the likelihood is evaluated at the PROPAGATED particle
+    ok2 = False
+    if rl and len(rl[0].args) == 3:
+        ye = rl[0].args[1]
+        obs = [n for n in ast.walk(ye) if isinstance(n, ast.Call) and isinstance(n.func, ast.Attribute) and n.func.attr == 'observation']
+        for o in obs:
+            if o.args and (_find_calls(o.args[0], 'state_transition') or
+                           any(isinstance(n, ast.Call) and dotted(n.func) == '$item' and isinstance(n.args[1], ast.Constant) and n.args[1].value == 0
+                               and isinstance(n.args[0], ast.Call) and dotted(n.args[0].func) == 'self.model' for n in ast.walk(o.args[0]))):
+                ok2 = True
+    chk('likelihood-at-propagated-particle', ok2, 'the predicted observation entering the importance weights is not model.observation(<propagated '
+        'particles>, ...): System.forward returns the observation of the state it was GIVEN, so the likelihood p(y | x_k) is evaluated at the '
+        'particle before the transition, not at x^-_k = f(x_k) as the documented step 3 (and the Kalman update on linear systems) requires')
     ok = bool(_find_calls(P, 'resample_particles')) and _mentions_noise(P, 'Q') and bool(_find_calls(P, 'compute_cov'))
     if ok:
         cc = _find_calls(P, 'compute_cov')[0]
